@@ -11,7 +11,7 @@ from ..core import AnalysisError
 from ..src import arg_names, calls_in, unparse
 
 LEVEL = "other"
-TECHNIQUE = "prange effect analysis: every store to a shared array classified (owner-indexed by mixed-radix injectivity / colour scatter / CSR owner range), call-site typestate of the per-colour launch, colouring-soundness lints; sentinel check of the colour map"
+TECHNIQUE = "prange effect analysis: every store to a shared array classified (owner-indexed by mixed-radix injectivity / colour scatter / CSR owner range), call-site typestate of the per-colour launch, colouring-soundness lints; sentinel check of the colour map; provenance of the colour map (own allocation / memo-key dependency analysis)"
 LEVEL_TEXT = (
     "Decided in full for the Numba backend under Numba's documented prange semantics: for every prange loop of every "
     "parallel=True function, every store to an array that exists before the loop is proved to address a slot owned by "
